@@ -309,6 +309,7 @@ func TestVF_C14(t *testing.T) {
 // e2e: sequences of transfers with every outcome through the same relay instance(s)
 
 type vfC14SeqCase struct {
+	Tunnel bool        `json:"tunnel,omitempty"` // client and relays have tunnel connectors: transfers go through the relays' tunnel
 	Relays int         `json:"relays"`
 	Acts   []vfC05Act  `json:"acts"`
 	Binary bool        `json:"binary"`
@@ -325,7 +326,7 @@ func vfC14SeqRun(cs vfC14SeqCase) string {
 	vfWriteFile(filepath.Join(src, "small.bin"), vfKindNoise, 5, 3000)
 	vfWriteFile(filepath.Join(src, "big.bin"), vfKindNoise, 6, 6<<20)
 	vfCurCase("TestVF_C14Seq", cs)
-	sess := vfNewSession(vfSessOpts{Relays: cs.Relays})
+	sess := vfNewSession(vfSessOpts{Relays: cs.Relays, Tunnel: cs.Tunnel})
 	defer sess.close()
 	for i, a := range cs.Acts {
 		termBase := sess.termOut.len()
@@ -346,7 +347,7 @@ func vfC14SeqRun(cs vfC14SeqCase) string {
 			tr := sess.c2s.transcript()
 			k := 0
 			for _, m := range sess.c2s.messages() {
-				if m.Typ != "ACT" {
+				if m.Typ != "ACT" || cs.Tunnel {
 					continue
 				}
 				k++
@@ -391,6 +392,7 @@ func vfC14SeqRun(cs vfC14SeqCase) string {
 func vfGenC14Seq(rt *rapid.T) vfC14SeqCase {
 	var cs vfC14SeqCase
 	cs.Relays = rapid.IntRange(1, 2).Draw(rt, "relays")
+	cs.Tunnel = rapid.IntRange(0, 2).Draw(rt, "tunnel") == 0
 	n := rapid.IntRange(2, 5).Draw(rt, "n")
 	for i := 0; i < n; i++ {
 		cs.Acts = append(cs.Acts, vfC05Act{Kind: "transfer", Outcome: rapid.SampledFrom([]string{"succeeded", "succeeded", "refused", "failed", "stopped"}).Draw(rt, "outcome"),
@@ -405,6 +407,9 @@ func TestVF_C14Seq(t *testing.T) {
 	vfCheck(t, c, vfGenC14Seq, func(cs vfC14SeqCase) string {
 		msg := vfC14SeqRun(cs)
 		labels := []string{"e2e_sequence", fmt.Sprintf("relay_hops_%d", cs.Relays)}
+		if cs.Tunnel {
+			labels = append(labels, "through_the_relay_tunnel")
+		}
 		for _, a := range cs.Acts {
 			labels = append(labels, "outcome_"+a.Outcome)
 		}
